@@ -145,3 +145,11 @@ pub mod errors;
 pub mod job;
 
 mod flag;
+
+/// Verification-only access to crate internals (enabled only under the Kani compiler).
+#[cfg(kani)]
+#[allow(missing_docs, unreachable_pub)]
+pub mod verif {
+	pub use crate::flag::Flag;
+	pub use crate::job::verif::*;
+}
